@@ -57,6 +57,12 @@ def gen_frame(r, rich=False, nhosts=4, trunc=False):
     fs["ethertype"] = r.pick([0x0800 + 0x100, 0x88b5, 0x809b])
     fs["oui"] = r.pick(["000000", "000000", "00000c"])
     fs["paylen"] = min(fs["paylen"], 200)
+    if trunc and r.chance(0.4):
+      # (C03 only) the SNAP header announces an 802.1Q tag
+      fs["snapvlan"] = [r.pick([1, 5, 100, 0xfff]), r.pick([0, 3, 7])]
+      fs["oui"] = "000000"
+      fs["sport"] = r.pick(SAFE_PORTS)
+      fs["dport"] = r.pick(SAFE_PORTS)
   elif k == "llc":
     fs["paylen"] = min(fs["paylen"], 200)
   if k in ("udp", "tcp", "icmp", "ipother"):
